@@ -59,6 +59,10 @@ type world struct {
 	seq    uint32
 	pubSeq int64
 	env    env
+
+	idleConns     int64 // RTSP sessions open when no case runs (the helper publisher)
+	panicOnce     sync.Once
+	sessionPanics int64
 }
 
 var (
@@ -107,6 +111,7 @@ func getWorld(t evid.TB) *world {
 		if st == nil || st.Multicastable() == nil {
 			t.Fatalf("machinery: %s is not multicast-capable", pathMLive)
 		}
+		w.idleConns = srv.RtspConns()
 		w.env = env{Live: map[string]bool{pathLive: true, pathMLive: true}, Multicast: map[string]bool{pathMLive: true}}
 		theWorld = w
 	})
@@ -383,11 +388,19 @@ func (w *world) runPlan(p *plan) (out outcome, rep *report, fail *failure, err e
 	}
 	m := newModel(wsPath)
 
+	// a case that failed half-way (e.g. while rapid shrinks) may still be closing: give the
+	// server a moment to get back to the idle world before the baseline is taken
+	srv.WaitFor(2*time.Second, func() bool {
+		return srv.RtspConns() == w.idleConns && srv.Consumers(pathLive) == 0 && srv.Consumers(pathMLive) == 0
+	})
 	// baseline of everything the statement says is given back
 	base := map[string]int{pathLive: srv.Consumers(pathLive), pathMLive: srv.Consumers(pathMLive)}
 	conns0 := srv.RtspConns()
 	streams0, _ := srv.Streams()
-	panics0 := w.s.LogCount("session panic")
+	// session panics are counted against a process-wide baseline, so that one logged after a
+	// case's last look is still reported (by the next case)
+	w.panicOnce.Do(func() { w.sessionPanics = w.s.LogCount("session panic") })
+	panics0 := w.sessionPanics
 	cpanics0 := w.s.LogCount("consume routine panic")
 	if base[pathLive] < 0 || base[pathMLive] < 0 {
 		return out, rep, nil, fmt.Errorf("machinery: a live stream vanished (live=%d mlive=%d)", base[pathLive], base[pathMLive])
@@ -509,7 +522,29 @@ func (w *world) runPlan(p *plan) (out outcome, rep *report, fail *failure, err e
 			probeCSeq = "7" + strconv.Itoa(c.NextCSeq()) + "7" // distinct from every request CSeq of the plan
 			probe = c.Build("OPTIONS", w.s.RTSP(pathLive), map[string]string{"CSeq": probeCSeq}, nil)
 		}
+		// while a PLAY or SETUP is being handled media keeps flowing on both live streams, so a
+		// consumer attached too early shows up as a frame in front of the response (stimulus
+		// only: the verdict is the order of items in the byte stream)
+		stopPump := func() {}
+		if s.Method == "PLAY" || s.Method == "SETUP" {
+			stop, done := make(chan struct{}), make(chan struct{})
+			go func() {
+				defer close(done)
+				for {
+					select {
+					case <-stop:
+						return
+					default:
+					}
+					w.pump(1)
+					time.Sleep(20 * time.Microsecond)
+				}
+			}()
+			var once sync.Once
+			stopPump = func() { once.Do(func() { close(stop); <-done }) }
+		}
 		fin := func(f *failure) (outcome, *report, *failure, error) {
+			stopPump()
 			ex.Problems = f.msg
 			ex.Model = m.String()
 			rep.Transcript = append(rep.Transcript, ex)
@@ -578,6 +613,7 @@ func (w *world) runPlan(p *plan) (out outcome, rep *report, fail *failure, err e
 				return fin(bad("session-header", "step %d (%s): Session id changed from %q to %q on one connection", i, ex.Req, session, id))
 			}
 		}
+		stopPump()
 		if len(got) != 1 {
 			return fin(bad("response-count", "step %d (%s, CSeq %s): %d responses before the probe's response, want exactly 1", i, ex.Req, reqCSeq, len(got)))
 		}
@@ -693,6 +729,7 @@ func (w *world) runPlan(p *plan) (out outcome, rep *report, fail *failure, err e
 		return out, rep, bad("registry", "after the connection ended: %d streams registered, before the case %d", st, streams0), nil
 	}
 	if n := w.s.LogCount("session panic"); n != panics0 {
+		w.sessionPanics = n
 		return out, rep, bad("panic", "the RTSP session goroutine panicked during the case:\n%s", tail(w.s.Logs(), 1500)), nil
 	}
 	if n := w.s.LogCount("consume routine panic"); n != cpanics0 {
